@@ -29,7 +29,7 @@ BOUNDS = {
 }
 ASSUMPTIONS = ["numerals in vector arguments are decimals with at most 3 places (the docstring's round-off caveat); IEEE rounding inside np.arange/np.round is outside the claim",
                "get_input, Data and the output actions are recording stubs in the dispatch harness (their behaviour: C01-C12)",
-               "whole-argument symbolic strings (arbitrary characters) are not modelled: malformed syntax is decided on a fixed list of malformed shapes"]
+               "whole arguments are character vectors of <= 4 (thorough 5) characters over the classes digit, '-', '.', ':', ',', other; digits symbolic"]
 STUBS = ["verif.input.get_input -> small in-memory input or error exit for names starting with 'missing'",
          "verif.data.Data -> keyword recorder", "verif.output.Output.text/csv/plot/map/plot_rank/plot_impact/plot_mapimpact -> recorder",
          "builtin open() in verif.driver -> in-memory config file (symbolic mode) / real temp file (replay)"]
@@ -408,6 +408,95 @@ def h_dates(maxdays):
     return fn
 
 
+CLASSES = ["d", "-", ".", ":", ",", "x"]
+
+
+def grammar_accepts(cls):
+    """vector := item (',' item)* ; item := num | num ':' num | num ':' num ':' num ;
+    num := '-'? (digits ('.' digits?)? | '.' digits) -- evaluated on the class string."""
+    import re
+    if "x" in cls:
+        return False
+    num = r"-?(d+(\.d*)?|\.d+)"
+    item = r"%s(:%s){0,2}" % (num, num)
+    return re.fullmatch(r"%s(,%s)*" % (item, item), cls) is not None
+
+
+def h_wellformed(L):
+    """Whole arguments as character vectors of length <= L: the class of every
+    character is chosen (6 classes), the digits are symbolic.  A string the
+    documented grammar rejects must end in an error exit (message + non-zero
+    status), not in values and not in another exception; an accepted string
+    must give the values the grammar denotes."""
+    def fn(S):
+        from symx import values as V
+        util = load.modules["verif.util"]
+        n = 1 + S.choose("length", L)
+        cls = "".join(CLASSES[S.choose("class%d" % i, len(CLASSES))] for i in range(n))
+        digits = []
+        parts, run, run_digits = [], "", []
+
+        def flush():
+            nonlocal run, run_digits
+            if run:
+                if S.symbolic:
+                    parts.append(V.CharPiece(run, run_digits))
+                else:
+                    it = iter(run_digits)
+                    parts.append("".join(str(int(next(it))) if ch == "d" else ch for ch in run))
+                run, run_digits = "", []
+        for i, ch in enumerate(cls):
+            if ch in "d-.":
+                if ch == "d":
+                    dv = S.integer("digit%d" % i, lo=0, hi=9)
+                    run_digits.append(dv)
+                    digits.append(dv)
+                run += ch
+            else:
+                flush()
+                parts.append("x" if ch == "x" else ch)
+        flush()
+        arg = S.arg(parts)
+        outcome, values, exc = None, None, None
+        try:
+            values = util.parse_numbers(arg)
+            outcome = "values"
+        except SystemExit as e:
+            outcome = "exit" if (e.code is not None and e.code != 0) else "exit0"
+        except Exception as e:
+            outcome = "exception"
+            exc = type(e).__name__
+        ok = grammar_accepts(cls)
+        S.observe("outcome", outcome)
+        if not ok:
+            S.prove("malformed-vector-is-rejected-with-an-error-exit", outcome == "exit", detail="class string %s -> %s %s" % (cls, outcome, exc or ""))
+            return
+        # accepted: no step 0 and bounded ranges are assumed before judging the values
+        S.prove("well-formed-vector-is-parsed", outcome in ("values", "exit"), detail="class string %s -> %s %s" % (cls, outcome, exc or ""))
+        if ":" not in cls:
+            # a plain list: exactly the numerals, in order
+            S.prove("list-is-parsed-to-values", outcome == "values", detail=cls)
+            if outcome != "values":
+                return
+            it = iter(digits)
+            want = []
+            for piece in cls.split(","):
+                neg = piece.startswith("-")
+                body = piece[1:] if neg else piece
+                ip, _, fp = body.partition(".")
+                v = 0
+                for k in range(len(ip)):
+                    v = v + next(it) * 10 ** (len(ip) - 1 - k)
+                for k in range(len(fp)):
+                    v = v + S.div(next(it), 10 ** (k + 1))
+                want.append(-v if neg else v)
+            S.prove("list-length", len(values) == len(want), detail=cls)
+            if len(values) == len(want):
+                S.prove("list-values", S.all(S.close(a, b) for a, b in zip(values, want)),
+                        twin=S.close(values[0], want[0] + 1), detail=cls)
+    return fn
+
+
 BAD = [
     ("unknown-flag", BASE + ["-nosuchflag", "3"]),
     ("flag-without-value", BASE + ["-latrange"]),
@@ -486,4 +575,5 @@ def harnesses(tier):
         Harness("vectors", h_vectors(10 if thorough else 6), "parse_numbers on symbolic decimal tokens"),
         Harness("dates", h_dates(10 if thorough else 6), "parse_dates across month / year / leap boundaries"),
         Harness("validation", h_validation(), "malformed and out-of-range arguments are rejected"),
+        Harness("wellformed", h_wellformed(5 if thorough else 4), "whole arguments as character vectors vs the documented grammar"),
     ]
